@@ -204,9 +204,7 @@ theorem walk_evspec {f : Nat} {t : Tracker} {src : Nat} {blk : Nat × Nat} {ev :
         · cases h
       · cases h
       · rename_i hst
-        split at h
-        · exact hgo (by rw [hst]; simp [dec_some, Status.decided]) h
-        · cases h
+        exact hgo (by rw [hst]; simp [dec_some, Status.decided]) h
       · rename_i hst
         exact hgo (by rw [hst]; simp [dec_some, Status.decided]) h
       · rename_i hst
@@ -344,9 +342,7 @@ theorem markNotarized_mid {t : Tracker} {blk : Nat × Nat} {t' : Tracker} {ev : 
   · split at h
     · cases h; exact ⟨_, MidEv.same t, Or.inl ⟨rfl, rfl⟩⟩
     · cases h
-  · split at h
-    · cases h; exact ⟨_, MidEv.same t, Or.inl ⟨rfl, rfl⟩⟩
-    · cases h
+  · cases h; exact ⟨_, MidEv.same t, Or.inl ⟨rfl, rfl⟩⟩
   · cases h; exact ⟨_, MidEv.same t, Or.inl ⟨rfl, rfl⟩⟩
   · rename_i hst
     obtain ⟨m, a, b⟩ := hfb_mid (by rw [hst]; simp [dec_some, Status.decided]) hw h
